@@ -102,6 +102,8 @@ type c08Beans struct {
 
 func c08OpenBeans(dir string) (b *c08Beans, status string) {
 	b = &c08Beans{}
+	c08Mark("beansdb-start")
+	defer c08Unmark()
 	status = Safe(func() string {
 		b.ldb = leveldb.NewLevelDBDatabase(filepath.Join(dir, "index"), 16, 16)
 		b.db = store.NewBeansDB(dir, b.ldb)
@@ -112,6 +114,8 @@ func c08OpenBeans(dir string) (b *c08Beans, status string) {
 }
 
 func (b *c08Beans) close() {
+	c08Mark("beansdb-close")
+	defer c08Unmark()
 	Safe(func() string {
 		if b.db != nil && b.db.Queue != nil {
 			b.db.Close()
@@ -146,7 +150,7 @@ func c08BeansOracle(c *Ctx, base string) {
 			panic(err)
 		}
 		if !c08QueueIdle(b.db.Queue, 10*time.Second) {
-			panic("queue does not drain")
+			panic(c08HangPanic{"writer-drain", "queue does not drain"})
 		}
 		got, _ := b.db.Get(flag, key)
 		if !bytes.Equal(got, val1) {
@@ -200,6 +204,10 @@ func c08BeansOracle(c *Ctx, base string) {
 				c08Fail(c, "c08/value-unreadable", fmt.Sprintf("cut %d (%s): Get fails: %v", cut, class, err), replay)
 			case bytes.Equal(got, want) || bytes.Equal(got, val2):
 				c.Count("beans:" + class + ":intact")
+			case bytes.Equal(got, val1) && cut >= 18+bodyLen:
+				// the complete new record is in tmp.data (head and body intact) and the key still reads the old value
+				c.Count("beans:" + class + ":complete-record-not-redelivered")
+				c08Fail(c, "c08/acked-record-lost/complete-record-in-wal-not-redelivered", fmt.Sprintf("BeansDB: key held %d x 0x11 (in the bitcask, indexed); tmp.data holds the COMPLETE record of the write of %d x 0x22 (cut at byte %d: %s, behind the body); after reopen and drain the key still reads the old value: the record was not redelivered", valLen, valLen, cut, class), replay)
 			default:
 				zeros := 0
 				for _, x := range got {
@@ -235,6 +243,8 @@ type c08Workload struct {
 	CodeHash []common.Hash
 	Roots    []common.Hash
 	TrieKV   []map[string]string
+	// Confirms[h]: confirm signatures that arrive for block h AFTER it became stable (SetConfirms rewrites its record)
+	Confirms [][]types.SignData
 }
 
 func c08AccDigest(acc *types.AccountData) string {
@@ -280,6 +290,9 @@ func c08Addr(i int) common.Address {
 }
 
 func c08MakeWorkload(seed int64, idx int, H int) *c08Workload {
+	if idx >= 400 {
+		return c08MakeOverwriteWorkload(seed, idx, H)
+	}
 	if idx >= 300 {
 		return c08MakeStepWorkload(seed, idx, H)
 	}
@@ -372,11 +385,16 @@ func c08MakeWorkload(seed int64, idx int, H int) *c08Workload {
 
 func (w *c08Workload) apply(db *store.ChainDatabase, h int) (setBlock, setStable string) {
 	blk := w.Blocks[h]
+	c08Note(fmt.Sprintf("apply block %d (SetBlock, account writes, SetStableBlock)", h))
+	c08Mark("set-block")
 	err := db.SetBlock(blk.Hash(), blk)
+	c08Unmark()
 	setBlock = c08DbErr(err)
 	if err != nil {
 		return setBlock, "skipped"
 	}
+	c08Mark("account-writes")
+	defer c08Unmark()
 	act, err := db.GetActDatabase(blk.Hash())
 	if err != nil {
 		return setBlock, "actdb:" + err.Error()
@@ -385,6 +403,7 @@ func (w *c08Workload) apply(db *store.ChainDatabase, h int) (setBlock, setStable
 		act.Put(a, uint32(h))
 	}
 	if h < len(w.Roots) {
+		c08Mark("code-and-trie-writes")
 		// executing the block: contract code (un-batched Put) and the version trie, computed on top of the trie the
 		// data directory holds for the parent ("computes the same hashes")
 		if err := db.SetContractCode(w.CodeHash[h], w.Codes[h]); err != nil {
@@ -402,7 +421,13 @@ func (w *c08Workload) apply(db *store.ChainDatabase, h int) (setBlock, setStable
 			return setBlock, "trie-root-differs"
 		}
 	}
+	c08Mark("set-stable-block")
 	_, err = db.SetStableBlock(blk.Hash())
+	if err == nil && h < len(w.Confirms) && len(w.Confirms[h]) > 0 {
+		// confirm packages that arrive after the block became stable: SetConfirms REWRITES the block record
+		c08Mark("set-confirms")
+		_, err = db.SetConfirms(blk.Hash(), w.Confirms[h])
+	}
 	return setBlock, c08DbErr(err)
 }
 
@@ -433,14 +458,17 @@ type c08Dump struct {
 	ByHash     []string          `json:"byHash"`   // "ok"/error for the workload's blocks 0..H
 	Accounts   map[string]string `json:"accounts"`
 	Cands      map[string]string `json:"cands"`
-	Top        map[string]string `json:"top"`   // GetCandidatesTop(stable hash)
-	Codes      []string          `json:"codes"` // GetContractCode(CodeHash[h]) for h = 0..H
-	Tries      []string          `json:"tries"` // every key of the version trie read from Roots[h]
+	Top        map[string]string `json:"top"`      // GetCandidatesTop(stable hash)
+	Codes      []string          `json:"codes"`    // GetContractCode(CodeHash[h]) for h = 0..H
+	Tries      []string          `json:"tries"`    // every key of the version trie read from Roots[h]
+	Confirms   []string          `json:"confirms"` // GetConfirms(hash of block h): count:fingerprint, or the error
 	Idle       bool              `json:"idle"`
 }
 
 type c08ChildOut struct {
 	OpenPanic string   `json:"openPanic"`
+	Hang      string   `json:"hang"` // op kind of a call into the code under test that did not return (child watchdog)
+	HangInfo  string   `json:"hangInfo"`
 	First     *c08Dump `json:"first"`
 	Cont      []string `json:"cont"` // results of re-applying blocks stable+1..upTo
 	Second    *c08Dump `json:"second"`
@@ -450,7 +478,10 @@ type c08ChildOut struct {
 
 func c08Observe(db *store.ChainDatabase, w *c08Workload) *c08Dump {
 	d := &c08Dump{Stable: -1, Accounts: map[string]string{}, Cands: map[string]string{}}
+	c08MarkFor("writer-drain", 25*time.Second)
 	d.Idle = c08QueueIdle(db.Beansdb.Queue, 15*time.Second)
+	c08Mark("observe-reads")
+	defer c08Unmark()
 	if blk, err := db.LoadLatestBlock(); err == nil && blk != nil {
 		d.Stable = int(blk.Height())
 		d.StableHash = blk.Hash().Hex()
@@ -472,6 +503,17 @@ func c08Observe(db *store.ChainDatabase, w *c08Workload) *c08Dump {
 				return "wrong-block"
 			}
 			return "ok"
+		}))
+		d.Confirms = append(d.Confirms, Safe(func() string {
+			cs, err := db.GetConfirms(w.Blocks[h].Hash())
+			if err != nil {
+				return c08DbErr(err)
+			}
+			var all []byte
+			for _, sg := range cs {
+				all = append(all, sg[:]...)
+			}
+			return fmt.Sprintf("%d:%d", len(cs), fnv32(all))
 		}))
 	}
 	for _, a := range w.Addrs {
@@ -556,9 +598,16 @@ func c08Child(c *Ctx) {
 		b, _ := json.Marshal(out)
 		fmt.Println("C08CHILD " + string(b))
 	}
+	// the child's own watchdog: a call into the code under test that does not come back ends the child with what it
+	// has observed so far and the op kind
+	c08WatchStart(c, func(kind, detail string) {
+		out.Hang, out.HangInfo = kind, detail
+		emit()
+	})
+	c08Case("reopen of a crash image in a child process")
 	var db *store.ChainDatabase
 	_, msg := SafeMsg(func() string {
-		db = store.NewChainDataBase(dir)
+		db = c08OpenChain(dir)
 		return ""
 	})
 	if msg != "" || db == nil {
@@ -582,20 +631,20 @@ func c08Child(c *Ctx) {
 			// second generation: what this (restarted, continued) node has on disk right now
 			c08CopyDir(dir, g2)
 		}
-		db.Close()
+		c08CloseChain(db)
 		time.Sleep(10 * time.Millisecond)
 		_, msg := SafeMsg(func() string {
-			db = store.NewChainDataBase(dir)
+			db = c08OpenChain(dir)
 			return ""
 		})
 		if msg != "" {
 			out.Notes = append(out.Notes, "second reopen panics: "+msg)
 		} else {
 			out.Reopen2 = c08Observe(db, w)
-			db.Close()
+			c08CloseChain(db)
 		}
 	} else {
-		db.Close()
+		c08CloseChain(db)
 	}
 	emit()
 }
@@ -616,9 +665,18 @@ type c08Image struct {
 	upTo     int    // continue the workload up to this block (0 = default H)
 }
 
+var c08ChildHangs int32
+
 func c08RunChild(c *Ctx, img *c08Image, wl, H, upTo int) (*c08ChildOut, string) {
+	// three reopen processes have hung already (each costs its watchdog's 25 s): the remaining images of the run are not
+	// reopened any more — the hangs are reported, the run must end in time
+	if atomic.LoadInt32(&c08ChildHangs) >= 3 {
+		return nil, "skipped: three reopen processes already hung"
+	}
 	ctx, cancel := context.WithTimeout(context.Background(), 45*time.Second)
 	defer cancel()
+	c08MarkFor("child-reopen", 60*time.Second) // (children run four at a time: the newest announcement wins; each has its own 45 s limit)
+	defer c08Unmark()
 	outDir := img.dir + ".out"
 	os.MkdirAll(outDir, 0755)
 	defer os.RemoveAll(outDir)
@@ -632,6 +690,10 @@ func c08RunChild(c *Ctx, img *c08Image, wl, H, upTo int) (*c08ChildOut, string) 
 		if strings.HasPrefix(line, "C08CHILD ") {
 			var o c08ChildOut
 			if json.Unmarshal([]byte(line[9:]), &o) == nil {
+				if o.Hang != "" {
+					atomic.AddInt32(&c08ChildHangs, 1)
+					return nil, "HANG " + o.Hang + " " + o.HangInfo
+				}
 				return &o, ""
 			}
 		}
@@ -646,6 +708,7 @@ func c08RunChild(c *Ctx, img *c08Image, wl, H, upTo int) (*c08ChildOut, string) 
 	}
 	if ctx.Err() != nil {
 		msg = "timeout (hang)"
+		atomic.AddInt32(&c08ChildHangs, 1)
 	}
 	return nil, fmt.Sprintf("%v: %s", err, msg)
 }
@@ -867,7 +930,7 @@ func c08ChainOracle(c *Ctx, base string) {
 		w := c08MakeWorkload(c.Seed, wl, H)
 		live := filepath.Join(base, fmt.Sprintf("live%d", wl))
 		os.MkdirAll(live, 0755)
-		db := store.NewChainDataBase(live)
+		db := c08OpenChain(live)
 		snaps := make([]string, H+1)
 		batches := make([][]byte, H+1)
 		for h := 0; h <= H; h++ {
@@ -876,14 +939,14 @@ func c08ChainOracle(c *Ctx, base string) {
 				c08Fail(c, "c08/workload", fmt.Sprintf("continuous node rejects block %d: %s/%s", h, sb, ss), nil)
 			}
 			if !c08QueueIdle(db.Beansdb.Queue, 20*time.Second) {
-				panic("live queue does not drain")
+				panic(c08HangPanic{"writer-drain", "live queue does not drain"})
 			}
 			snaps[h] = filepath.Join(base, fmt.Sprintf("snap%d_%d", wl, h))
 			c08CopyDir(live, snaps[h])
 			batches[h], _ = os.ReadFile(filepath.Join(snaps[h], "tmp.data"))
 		}
 		cont := c08Observe(db, w) // the never-stopped node
-		db.Close()
+		c08CloseChain(db)
 		if f := c08CheckDump(c, w, &c08Image{name: "continuous node", candsOld: -1}, cont, "no crash", H, H); len(f) > 0 {
 			c.Count("chain:continuous-node-inconsistent")
 		}
@@ -1091,7 +1154,7 @@ func c08ChainOracle(c *Ctx, base string) {
 					upTo = img.upTo
 				}
 				o, die := c08RunChild(c, img, wl, H, upTo)
-				if o == nil && strings.Contains(die, "timeout (hang)") {
+				if o == nil && (strings.Contains(die, "timeout (hang)") || strings.HasPrefix(die, "HANG ")) {
 					atomic.AddInt32(&hangs, 1)
 				}
 				results[i] = result{o, die}
@@ -1105,7 +1168,7 @@ func c08ChainOracle(c *Ctx, base string) {
 				r := results[i]
 				if r.out == nil {
 					c.Count("chain:" + img.class + ":process-died")
-					c08Fail(c, "c08/reopen-crash/"+img.cause, fmt.Sprintf("[%s] the process reopening the data directory dies: %s", img.name, r.die), img.replay)
+					c08ChildDied(c, img, r.die)
 					return
 				}
 				if r.out.OpenPanic != "" {
@@ -1174,7 +1237,7 @@ func c08ChainOracle(c *Ctx, base string) {
 			_ = gi
 			if o == nil {
 				c.Count("chain:second-generation:process-died")
-				c08Fail(c, "c08/reopen-crash/"+img.cause, fmt.Sprintf("[%s] the process reopening the data directory dies: %s", img.name, die), img.replay)
+				c08ChildDied(c, img, die)
 				continue
 			}
 			if o.OpenPanic != "" {
@@ -1245,6 +1308,12 @@ func c08Layout(data []byte) []c08RecPos {
 func c08Guard(c *Ctx, what string, f func()) {
 	defer func() {
 		if r := recover(); r != nil {
+			c08Unmark()
+			if hp, ok := r.(c08HangPanic); ok {
+				c.Count("hang:" + hp.kind)
+				c08Fail(c, "c08/hang/"+hp.kind, fmt.Sprintf("[%s] %s: the asynchronous writer of the live store does not get there within its time limit (family %s given up)", c08Wd.caseNm, hp.what, what), map[string]interface{}{"level": "watchdog", "case": c08Wd.caseNm, "op_kind": hp.kind, "ops": append([]string{}, c08Wd.notes...)})
+				return
+			}
 			c.Count("harness-panic:" + what)
 			c08Fail(c, "c08/harness/"+what+"-panicked", fmt.Sprintf("the harness itself panicked in %s: %v (the code under test produced something the harness did not expect)", what, r), nil)
 		}
@@ -1253,11 +1322,21 @@ func c08Guard(c *Ctx, what string, f func()) {
 }
 
 func c08Oracles(c *Ctx, base string) {
-	c08Guard(c, "beans-oracle", func() { c08BeansOracle(c, base) })
-	c08Guard(c, "chain-oracle", func() { c08ChainOracle(c, base) })
-	c08Guard(c, "lag-oracle", func() { c08LagOracle(c, base) })
-	c08Guard(c, "rewind-oracle", func() { c08RewindOracle(c, base) })
-	c08Guard(c, "step-oracle", func() { c08StepOracle(c, base) })
+	for _, f := range []struct {
+		name string
+		run  func(*Ctx, string)
+	}{
+		{"overwrite-oracle", c08OverwriteOracle}, // crash with overwrites of indexed keys pending (c08_overwrite.go)
+		{"beans-oracle", c08BeansOracle},
+		{"chain-oracle", c08ChainOracle},
+		{"lag-oracle", c08LagOracle},
+		{"rewind-oracle", c08RewindOracle},
+		{"step-oracle", c08StepOracle},
+	} {
+		f := f
+		c08Family(f.name)
+		c08Guard(c, f.name, func() { f.run(c, base) })
+	}
 }
 
 var _ = hex.EncodeToString
